@@ -30,8 +30,25 @@ def isSpreadLit : Node → Bool
 /-- array literals passed to `apply` are handed to the hook element by element -/
 def expandApplyArg (a : Node) : List Node :=
   match a with
-  | .arg none (.array elems _) => elems
+  | .arg none (.array elems _) => elems.map fun el =>
+      match el with
+      | .arg s e => .arg s e
+      | _ => .arg none (.unary "void" (.lit "NumericLiteral" "{\"value\":0.0,\"raw\":null}" "" Span.dummy) Span.dummy)  -- a hole
   | a => [a]
+
+/-- a `+` sum that is not made of literals only (left in place and not passed on when the `+` operator
+    is not configured) -/
+def isNonLiteralSum (n : Node) : Bool :=
+  isPlusSum n && !litSumSpec n
+where
+  litSumSpec : Node → Bool
+    | .lit .. => true
+    | .bin "+" l r _ => litSumSpec l && litSumSpec r
+    | _ => false
+
+def sumClass (cfg : Config) (what : String) : String :=
+  if cfg.plusEnabled then what ++ "/sum-omitted-although-plus-is-enabled"
+  else what ++ "/uninstrumented-sum-omitted-when-plus-is-disabled"
 
 /-- expected hook arguments (after the result) for a method-call shaped first argument -/
 def expectedCallArgs (first : Node) : Option (List Node) :=
@@ -48,39 +65,50 @@ def expectedCallArgs (first : Node) : Option (List Node) :=
     else none
   | _ => none
 
+def argOf : Node → Node
+  | .arg _ e => e
+  | e => e
+
+def mirrorPlus (cfg : Config) (name : String) (l r : Node) (rest : List Node) : Option String :=
+  if name != cfg.plusName then some "plus-shape-under-other-hook"
+  else if argsEq rest [.arg none l, .arg none r] then none
+  else if isNonLiteralSum l || isNonLiteralSum r then some (sumClass cfg "plus")
+  else some "plus/mismatch"
+
+def mirrorTpl (cfg : Config) (name : String) (exprs rest : List Node) : Option String :=
+  if name != cfg.tplName then some "tpl-shape-under-other-hook"
+  else if argsEq rest (exprs.map mirrorOf) then none
+  else if exprs.any isNonLiteralSum then some (sumClass cfg "tpl")
+  else some "tpl/mismatch"
+
+/-- bare call allowed without callee: (result, function, undefined, args…) -/
+def mirrorBare (cfg : Config) (f : Node) (cargs rest : List Node) : Option String :=
+  match rest with
+  | fArg :: .arg none (.ident (.user "undefined") _) :: restArgs =>
+    if Node.eqNS fArg (.arg none f) && argsEq restArgs cargs then none
+    else if cargs.any (fun a => isNonLiteralSum (argOf a)) then some (sumClass cfg "call")
+    else some "bare-call/mismatch"
+  | _ => some "bare-call/mismatch"
+
+def mirrorCall (cfg : Config) (first : Node) (rest : List Node) : Option String :=
+  match expectedCallArgs first with
+  | some exp =>
+    if argsEq rest exp then none
+    else if exp.any (fun a => isNonLiteralSum (argOf a)) then some (sumClass cfg "call")
+    else some "call/mismatch"
+  | none => some "unknown-first-argument-shape"
+
 /-- `none` = mirrors; `some cls` = the class of the mismatch -/
+def argsMirrorFirst (cfg : Config) (name : String) (first : Node) (rest : List Node) : Option String :=
+  match first with
+  | .bin "+" l r _ => mirrorPlus cfg name l r rest
+  | .tpl exprs _ _ => mirrorTpl cfg name exprs rest
+  | .call (.ident n isp) cargs _ => mirrorBare cfg (.ident n isp) cargs rest
+  | _ => mirrorCall cfg first rest
+
 def argsMirrorSite (cfg : Config) (h : Node) : Option String :=
   match h with
-  | .call (.member _ (.pname name _) _) (.arg none first :: rest) _ =>
-    match first with
-    | .bin "+" l r _ =>
-      if name != cfg.plusName then some "plus-shape-under-other-hook"
-      else if argsEq rest [.arg none l, .arg none r] then none
-      else if isPlusSum l || isPlusSum r then some "plus/uninstrumented-sum-operand-omitted"
-      else some "plus/mismatch"
-    | .tpl exprs _ _ =>
-      if name != cfg.tplName then some "tpl-shape-under-other-hook"
-      else if argsEq rest (exprs.map mirrorOf) then none
-      else if exprs.any isPlusSum then some "tpl/uninstrumented-sum-substitution-omitted"
-      else some "tpl/mismatch"
-    | .call (.ident _ _) cargs _ =>
-      -- bare call allowed without callee: (result, function, undefined, args…)
-      match first, rest with
-      | .call f _ _, fArg :: .arg none (.ident (.user "undefined") _) :: restArgs =>
-        if Node.eqNS fArg (.arg none f) && argsEq restArgs cargs then none
-        else if cargs.any isSpreadLit then some "call/spread-literal-passed-unspread"
-        else if cargs.any (fun a => isPlusSum (match a with | .arg _ e => e | e => e)) then some "call/uninstrumented-sum-argument-omitted"
-        else some "bare-call/mismatch"
-      | _, _ => some "bare-call/mismatch"
-    | _ =>
-      match expectedCallArgs first with
-      | some exp =>
-        if argsEq rest exp then none
-        else if exp.any isSpreadLit then some "call/spread-literal-passed-unspread"
-        else if exp.any (fun a => isPlusSum (match a with | .arg _ e => e | e => e)) then some "call/uninstrumented-sum-argument-omitted"
-        else if exp.any (fun a => match a with | .atom _ => true | _ => false) then some "apply/array-hole-dropped"
-        else some "call/mismatch"
-      | none => some "unknown-first-argument-shape"
+  | .call (.member _ (.pname name _) _) (.arg none first :: rest) _ => argsMirrorFirst cfg name first rest
   | _ => some "hook-without-result-argument"
 
 /-- classes of all mismatching hook sites of a tree -/
